@@ -143,15 +143,29 @@ def check(repo, rep, tier):
         raise AnalysisError("no class interposing sys.exit and sys.excepthook found in pysnark.atexitmaybe")
     init = eo.methods["__init__"]
     hooks = {}
+    # straight-line simulation of the constructor: a local holds what was read into it (prev = sys.exit; ...; self._exit = prev)
+    reads = {}          # local name -> (text read, index of the reading statement)
+    saves, insts = {}, {}
+    for idx, s in enumerate(init.node.body):
+        if not (isinstance(s, ast.Assign) and len(s.targets) == 1):
+            continue
+        vt, ridx = norm(s.value), idx
+        if isinstance(s.value, ast.Name) and s.value.id in reads:
+            vt, ridx = reads[s.value.id]
+        tt = norm(s.targets[0])
+        if isinstance(s.targets[0], ast.Name):
+            reads[tt] = (vt, ridx)
+        elif tt.startswith("self.") and vt in ("sys.exit", "sys.excepthook"):
+            saves.setdefault(vt, (s, ridx))
+        elif tt in ("sys.exit", "sys.excepthook") and vt.startswith("self."):
+            insts.setdefault(tt, (s, idx, vt))
     for hook in ("sys.exit", "sys.excepthook"):
-        save = [s for s in init.node.body if isinstance(s, ast.Assign) and norm(s.value) == hook
-                and norm(s.targets[0]).startswith("self.")]
-        inst = [s for s in init.node.body if isinstance(s, ast.Assign) and norm(s.targets[0]) == hook
-                and norm(s.value).startswith("self.")]
+        save = [saves[hook][0]] if hook in saves else []
+        inst = [insts[hook][0]] if hook in insts else []
         where = init.loc()
-        if save and inst and init.node.body.index(save[0]) < init.node.body.index(inst[0]):
+        if save and inst and saves[hook][1] < insts[hook][1]:
             saved_as = norm(save[0].targets[0])
-            meth = norm(inst[0].value).split(".", 1)[1]
+            meth = insts[hook][2].split(".", 1)[1]
             hooks[hook] = (saved_as, meth)
             r1.ok(init.loc(inst[0]), init.fq, "%s saved as %s, replaced by self.%s" % (hook, saved_as, meth))
         else:
@@ -239,7 +253,15 @@ def check(repo, rep, tier):
                 runs = False
                 try:
                     for p_ in paths:
-                        if all(bool(mini_eval(t, env)) == pol for t, pol in p_.conds):
+                        env2 = dict(env)
+                        feasible = True
+                        for st in p_.steps:
+                            if st[0] == "assign":
+                                env2[st[1]] = mini_eval(st[2], env2)
+                            elif bool(mini_eval(st[1], env2)) != st[2]:
+                                feasible = False
+                                break
+                        if feasible:
                             runs = True
                 except KeyError as e:
                     r2.undecided(inner.loc(), inner.fq, guard_txt[:160], "guard uses a construct outside the table evaluator: %s" % e)
